@@ -133,6 +133,33 @@ class C14(Prop):
             if sch.duration != want(s, e):
                 acc.violation("wrong-duration-in-schedule", f"SwitcherSchedule({ss},{hhmm(e)}).duration = {sch.duration!r}",
                               {"start": ss, "end": hhmm(e), "got": sch.duration, "want": want(s, e)})
+        # the duration of schedules parsed from a device reply follows from their own start/end HH:MM, whatever seconds the
+        # device's timestamps carry
+        from ..ref import replies as _rp
+        from aioswitcher.api.messages import SwitcherGetSchedulesResponse
+
+        zone_now = zone if now is not None else "UTC"
+        base_epoch = int(now if now is not None else 1_760_000_000)
+        recs = []
+        for k in range(4):
+            se = base_epoch - base_epoch % 86400 + s * 60 + r.randrange(60)
+            ee = se + r.randrange(0, 86400)
+            recs.append((k, se, ee))
+        reply = _rp.schedules([_rp.schedule_record(k, 0x54, se, ee) for k, se, ee in recs])
+        try:
+            parsed = {x.schedule_id: x for x in SwitcherGetSchedulesResponse(reply).schedules}
+            for k, se, ee in recs:
+                x = parsed.get(str(k))
+                if x is None:
+                    continue
+                acc.count("durations_via_device_reply")
+                sm = int(x.start_time[:2]) * 60 + int(x.start_time[3:])
+                em = int(x.end_time[:2]) * 60 + int(x.end_time[3:])
+                if x.duration != want(sm, em):
+                    acc.violation("wrong-duration-in-listed-schedule", f"listed schedule {x.start_time}-{x.end_time} (timestamps {se}, {ee}, zone {zone_now}) "
+                                  f"reports duration {x.duration!r}, want {want(sm, em)}", {"start": x.start_time, "end": x.end_time, "se": se, "ee": ee})
+        except Exception as exc:
+            acc.violation("raised", f"parsing a schedules reply raised {type(exc).__name__}: {exc}", {})
         self.rec.drain()
         if s % 240 == 7 and (now is None or case["config"] % 9 == 1):
             acc.sample({"zone": zone, "virtual_now": now, "start": ss, "end": hhmm((s + 1439) % 1440), "observed": calc(ss, hhmm((s + 1439) % 1440))})
